@@ -49,11 +49,18 @@ def parse_outcome(text, start=1):
 
 
 def classes_case(kinds):
+    """-> [classes case] or [classes case, error case]: a structural error (block left open, closing keyword without its opener ...)
+    must also name a logical line of the text, offset by the caller's start line"""
     text = '\n'.join(render_kind(k, i) for i, k in enumerate(kinds))
-    out, _, _, _ = parse_outcome(text)
+    start = (1, 7, 100)[(len(kinds) + sum(len(k) for k in kinds)) % 3]
+    out, err, shown, caret = parse_outcome(text, start)
     c = json.loads(json.dumps(BASE))
     c.update({'kind': 'classes', 'kinds': list(kinds), 'outcome': out, 'source': text})
-    return c
+    if out != 'BareScriptParserError':
+        return [c]
+    e = json.loads(json.dumps(BASE))
+    e.update({'kind': 'error', 'text': A.cps(text), 'outcome': out, 'start': start, 'err': err, 'shown': shown, 'caret': caret, 'source': text[:300]})
+    return [c, e]
 
 
 HEADS = [('assign', 'res = ', ''), ('return', 'return ', ''), ('expr', '', ''), ('if', 'if ', ':'), ('elif', 'elif ', ':'), ('while', 'while ', ':'),
@@ -169,13 +176,14 @@ def soup_case(seed):
             else:
                 lines[i] = '    ' * rnd.randint(10, 50) + lines[i]
     text = '\n'.join(lines)
-    out, err, shown, caret = parse_outcome(text)
+    start = rnd.choice([1, 1, 7, 100])
+    out, err, shown, caret = parse_outcome(text, start)
     c = json.loads(json.dumps(BASE))
     c.update({'kind': 'total', 'outcome': out, 'source': text[:300]})
     cases = [c]
     if out == 'BareScriptParserError':
         e = json.loads(json.dumps(BASE))
-        e.update({'kind': 'error', 'text': A.cps(text), 'outcome': out, 'start': 1, 'err': err, 'shown': shown, 'caret': caret, 'source': text[:300]})
+        e.update({'kind': 'error', 'text': A.cps(text), 'outcome': out, 'start': start, 'err': err, 'shown': shown, 'caret': caret, 'source': text[:300]})
         cases.append(e)
     return cases
 
@@ -243,7 +251,7 @@ def run(ctx, replay=None):
         if rnd.random() < 0.1:
             seq = seq + ['pending']
         jobs.append((seq,))
-    cases = F.pmap(classes_case, jobs)
+    cases = [c for cs in F.pmap(classes_case, jobs) for c in cs]
     cases += [nesting_case(d) for d in (1, 5, 20, 50)]
     lens = list(range(0, 131, ctx.pick(3, 1))) + list(range(140, 401, ctx.pick(20, 2))) + [118, 119, 120, 121, 122, 239, 240, 241, 400]
     fj = [(ctx.seed * 31 + i * 977 + L, L, i % 2 == 0) for L in lens for i in range(ctx.pick(6, 40))]
